@@ -367,7 +367,7 @@ def run(ctx: Check, tree: Tree) -> None:
         "sympy.physics.quantum: Rotation.D(j, m, mp, alpha, beta, gamma), CG(j1, m1, j2, m2, j3, m3) argument order",
         "an edit that skips terms it can prove to vanish would be reported by R-FOLD although the value is unchanged (none exists today)",
     ]
-    check_wigner_d(ctx, tree)
-    check_cg(ctx, tree)
-    check_fold(ctx, tree)
-    check_products(ctx, tree)
+    ctx.section(check_wigner_d, ctx, tree)
+    ctx.section(check_cg, ctx, tree)
+    ctx.section(check_fold, ctx, tree)
+    ctx.section(check_products, ctx, tree)
